@@ -136,26 +136,268 @@ def listed():
                             _LISTED[(prop, N, k, t)] = kind
     return _LISTED
 
-def pairs_seen():
-    """(branch, kind) pairs occurring among the recorded failures, per property"""
-    out = {"C05": set(), "C06": set()}
-    for (prop, N, k, t), kind in listed().items():
-        out[prop].add((branch(k, t), kind))
-    return out
+# ------------------------------------------------------------------ the model of the search (Model/CompilerSearch.lean)
+SEARCH_THEOREMS_C05 = ["PauLie.C05.compile_YIY", "PauLie.C05.compile_IIX", "PauLie.C05.C05_refuted_model", "PauLie.C05.C05_refuted_zero_model",
+                       "PauLie.C05.observed_are_model_runs", "PauLie.C05.C05_verified_return", "PauLie.C05.C05_verified_return_matrix",
+                       "PauLie.C05.C05_wI_valid", "PauLie.CompilerSearch.compileTargetB_eq", "PauLie.CompilerSearch.compileWith_verified",
+                       "PauLie.CompilerSearch.leftMapOverA_sound"]
+SEARCH_THEOREMS_C06 = ["PauLie.C06.C06_refuted", "PauLie.C06.C06_refuted_run", "PauLie.C06.C06_refuted_left_only", "PauLie.C06.C06_refuted_even_k",
+                       "PauLie.C06.observed_raises_are_model_runs", "PauLie.C06.compileTarget_guards", "PauLie.C06.left_search_sound",
+                       "PauLie.C06.left_search_complete", "PauLie.C06.left_search_odd_obstruction", "PauLie.C06.C06_fails_odd_wI",
+                       "PauLie.CompilerSearch.compileTargetB_eq"]
 
-def signature(prop, N, k, t, kind):
-    """signature of a failure for known_findings.json; None = not coverable"""
+def replay_compile(line, out):
+    """shared part of the replay of a `compile` line: the model's run next to the implementation's"""
+    m = run_model([line])[0]
+    print("model         :", m)
+    print("model (return of compile, kind by the validator):", run_model(["compilex" + line[len("compile"):]])[0])
+    if m != out:
+        print("correspondence: DIVERGES (the model of the search does not do what the implementation does)")
+        return 1
+    return 0
+
+MODELX = {}     # "compile N k T" -> reply of the model to "compilex N k T": `branch=.. kind=.. seq=..` or `!Type@function`
+IMPL = {}       # "compile N k T" -> what the implementation answered (filled by the oracles)
+
+def modelx(lines):
+    """model replies (with the `return` of compile that fired and the failure kind the verified validator gives on the
+    model's own output) for `compile` lines, batched and cached"""
+    todo = [l for l in dict.fromkeys(lines) if l not in MODELX]
+    if todo:
+        for l, m in zip(todo, run_model(["compilex" + l[len("compile"):] for l in todo])):
+            MODELX[l] = m
+    return [MODELX[l] for l in lines]
+
+def model_view(line):
+    """(what the model's compile_target does in the text of the `compile` protocol, model branch, model kind)"""
+    m = modelx([line])[0]
+    N, k, t = parse_compile_line(line)
+    if m.startswith("!"):
+        return m, branch(k, t), "raise:" + m[1:]
+    f = fields(m)
+    return "seq=" + f.get("seq", "?"), f.get("branch", "?"), f.get("kind", "?")
+
+def model_branch(line):
+    return model_view(line)[1]
+
+def signature(prop, N, k, t, kind, line=None, out=None):
+    """signature of a failure for known_findings.json; None = not coverable.
+    N <= 5: the failure is one of the committed list known/compiler_failures.json (exact input and kind).
+    N >= 6: the failure is known iff the MODEL of compile_target does exactly what the implementation did on this input
+    (same sequence / same exception type raised by the same function) and the failure kind is the one the verified validator
+    gives on the model's own output; the signature names the `return` of compile (model branch) and the kind, and only the
+    pairs entered in known_findings.json are accepted."""
     if kind.startswith("ORACLE") or kind in ("garbage",):
         return None
     if N <= 5:
         return f"N<=5:listed:{kind}" if listed().get((prop, N, k, t)) == kind else None
-    br = branch(k, t)
-    if (br, kind) in pairs_seen()[prop]:
-        if br == "W=I" and kind.startswith("raise:"):
-            # the left-only search fails only where the left set is not transitive: odd k
-            return f"N>=6:{br}:k odd:{kind}" if k % 2 == 1 else None
-        return f"N>=6:{br}:{kind}"
-    return None
+    line = line or f"compile {N} {k} {t}"
+    if line not in IMPL:
+        IMPL[line] = impl_compiler.handle(line)
+    mout, mbranch, mkind = model_view(line)
+    if mout != (IMPL[line] if out is None else out) or mkind != kind:
+        return None                        # not what the model says: a new difference
+    return f"N>=6:model-reproduced:{mbranch}:{kind}"
+
+# ------------------------------------------------------------------ the class API with object reuse
+CCOUT = {}      # "ccompile N k t1,t2" -> list of the per-target replies of the reused object
+
+def parse_ccompile(line):
+    _, N, k, ts = line.split(" ")
+    return int(N), int(k), ts.split(",")
+
+def ccompile_lines(rng, tier):
+    """ONE OptimalPauliCompiler object compiles a short sequence of targets: repeats of the same target, consecutive targets
+    sharing the right block W (different / equal left blocks), unrelated targets in between; N<=5 mostly (every call is cheap)"""
+    th = tier == "thorough"
+    rs = lambda n, al="IXYZ": "".join(rng.choice(al) for _ in range(n))
+    out = ["ccompile 3 2 XIX,XIX", "ccompile 3 2 ZIX,YIX,XIX", "ccompile 4 2 YIXI,ZZXI,YIXI", "ccompile 4 2 XIIZ,IXIZ,IIIZ,IXIZ",
+           "ccompile 3 2 YII,YII,IXI", "ccompile 4 3 XIIX,IXIX,IIIX", "ccompile 5 2 ZIIIX,IZIIX,ZIIIX"]
+    for _ in range(700 if th else 170):
+        N = rng.choice([3, 3, 4, 4, 4, 5, 5, 6] if th else [3, 3, 4, 4, 4, 5, 5])
+        k = rng.randint(2, min(N - 1, 4))
+        m = rng.choice([2, 2, 3, 3, 4])
+        ts = []
+        W = rs(N - k, "IXZXZY")
+        for _ in range(m):
+            r = rng.random()
+            if ts and r < 0.25:
+                ts.append(rng.choice(ts))                       # a repeat
+            elif r < 0.8:
+                ts.append(rs(k, "IXYZXYZ") + W)                 # same right block, another left block
+            else:
+                W = rs(N - k)                                   # move to another right block
+                ts.append(rs(k) + W)
+        ts = [t for t in ts if set(t) != {"I"}]
+        if len(ts) >= 2:
+            out.append(f"ccompile {N} {k} {','.join(ts)}")
+    return list(dict.fromkeys(out))
+
+def shrink_ccompile(line):
+    """drop one target (at least two stay: the point is the history on one object)"""
+    N, k, ts = parse_ccompile(line)
+    if len(ts) > 2:
+        for i in range(len(ts)):
+            yield f"ccompile {N} {k} {','.join(ts[:i] + ts[i + 1:])}"
+
+def ccompile_oracle(pid):
+    """per target: the reply of the REUSED object is judged exactly like a compile_target reply (C05: the verified validator on a returned
+    sequence; C06: a raise), and it must be what a FRESH compiler answers for that target"""
+    def batch(lines, outs):
+        flat_l, flat_o, owner = [], [], []
+        res = [None] * len(lines)
+        for i, (l, o) in enumerate(zip(lines, outs)):
+            N, k, ts = parse_ccompile(l)
+            rs_ = o.split("|")
+            if len(rs_) != len(ts):
+                res[i] = f"ccompile; garbage: {o[:120]}"
+                continue
+            CCOUT[l] = rs_
+            for t, r in zip(ts, rs_):
+                flat_l.append(f"compile {N} {k} {t}"); flat_o.append(r); owner.append(i)
+        for cl in dict.fromkeys(flat_l):
+            if cl not in IMPL:
+                IMPL[cl] = impl_compiler.handle(cl)          # the fresh compiler (compile_target)
+        js = judge(flat_l, flat_o) if pid == "C05" else [("raise:" + o[1:], o) if o.startswith("!") else ("ok", o) for o in flat_o]
+        probs = {}
+        for cl, r, i, (kind, detail) in zip(flat_l, flat_o, owner, js):
+            t = cl.split(" ")[3]
+            fresh = IMPL[cl]
+            if r != fresh:
+                probs.setdefault(i, []).append(f"t={t}:reused-differs: the reused object answers {r[:100]}, a fresh compiler {fresh[:100]}")
+            if kind != "ok" and not (pid == "C05" and kind.startswith("raise:")):
+                probs.setdefault(i, []).append(f"t={t}:kind={kind}")
+        for i, ps in probs.items():
+            if res[i] is None:
+                res[i] = "ccompile; " + " ;; ".join(ps)
+        return res
+    return batch
+
+def ccompile_known(pid, line, why):
+    """a ccompile line is a known finding only if EVERY failing reply in it is one (same logic as for compile_target, keyed by
+    (N, k, target, kind)); a reply that differs from the fresh compiler's is never known"""
+    if not why.startswith("ccompile; ") or "reused-differs" in why or "garbage" in why:
+        return None
+    N, k, ts = parse_ccompile(line)
+    outs = CCOUT.get(line)
+    if outs is None:
+        return None
+    sigs = []
+    for part in why[len("ccompile; "):].split(" ;; "):
+        t, kind = part.split(":kind=")
+        t = t[2:]
+        idxs = [i for i, x in enumerate(ts) if x == t]
+        sg = [signature(pid, N, k, t, kind, f"compile {N} {k} {t}", out=outs[i]) for i in idxs]
+        if not sg or any(x is None or not known_lookup(pid, x) for x in sg):
+            return None
+        sigs.append(sg[0])
+    return sigs[0] if sigs else None
+
+def listed_kind(line):
+    """what the committed list says about `ckind N k T`"""
+    _, N, k, t = line.split(" ")
+    N, k = int(N), int(k)
+    return listed().get(("C06", N, k, t)) or listed().get(("C05", N, k, t)) or "ok"
+
+def listed_lines(tier):
+    out = []
+    for N in range(3, 6 if tier == "thorough" else 5):
+        for k in range(2, N):
+            out += [f"ckind {N} {k} {t}" for t in all_targets(N)]
+    return out
+
+def helper_lines(rng, tier):
+    """the search helpers one by one: left_map_over_a, subsystem_compiler, factor_w_orders, _candidate_decompositions, _bfs_case3"""
+    th = tier == "thorough"
+    rs = lambda n, al="IXYZ": "".join(rng.choice(al) for _ in range(n))
+    out = ["lmap 3 XII IXX", "lmap 2 XI YZ", "lmap 2 X XY", "lmap 2 XY XY", "lmap 2 II XI", "lmap 0 - -", "lmap 2 XI II",
+           "subc 3 2 I", "subc 3 2 XX", "subc 3 1 XX", "forders 5 2 YIY", "forders 6 2 YIYY", "forders 6 2 YYIY", "forders 7 2 YYIYY", "cdec 4 2 II", "bfs3 3 2 X 8 200000",
+           "bfs3 3 3 X 2 10", "bfs3 4 2 IX 0 10", "bfs3 4 2 YY 8 0"]
+    for k in (2, 3, 4):
+        ts = all_targets(k) + ["I" * k]
+        for _ in range(400 if th else (90 if k < 4 else 40)):
+            out.append(f"lmap {k} {rng.choice(ts)} {rng.choice(ts)}")
+    for _ in range(1200 if th else 260):
+        N = rng.randint(3, 7)
+        k = rng.randint(2, min(N - 1, 4))
+        w = rs(N - k, "IXYZY")
+        out.append(f"{rng.choice(['subc', 'subc', 'forders', 'cdec'])} {N} {k} {w}")
+    for _ in range(120 if th else 30):
+        N = rng.randint(3, 5)
+        k = rng.randint(2, N - 1)
+        out.append(f"bfs3 {N} {k} {rs(N - k)} {rng.randint(0, 8 if N < 5 else 5)} {rng.choice([5, 50, 500, 5000, 200000])}")
+    # the two helper choices over the pool (`_choose_a1_a2` is never reached from compile_target for N<=6: only this stream ties it)
+    out += ["a1a2 2 XI", "a1a2 2 II", "a1a2 3 XII", "a1a2 1 X", "aprime 2 XI II", "aprime 2 II II", "aprime 2 XI X"]
+    for _ in range(200 if th else 60):
+        k = rng.choice([2, 2, 3, 4])
+        out.append(f"a1a2 {k} {rs(k, 'IIXYZ')}")
+        out.append(f"aprime {k} {rs(k, 'IIXYZ')} {rs(k, 'IIXYZ')}")
+    # interleaving generators: order of the yields and the cap
+    for _ in range(400 if th else 120):
+        nb = rng.choice([3, 3, 4])
+        blocks = [[rs(2) for _ in range(rng.randint(0, 3))] for _ in range(nb)]
+        flat = [(i, j) for i, b in enumerate(blocks) for j in range(len(b))]
+        # a random interleaving that preserves the order inside every block (or, sometimes, an arbitrary list)
+        pos = [0] * nb
+        want = []
+        while len(want) < len(flat):
+            i = rng.choice([i for i in range(nb) if pos[i] < len(blocks[i])])
+            want.append(blocks[i][pos[i]]); pos[i] += 1
+        if rng.random() < 0.15:
+            rng.shuffle(want)
+        cap = rng.choice([0, 1, 2, 3, 5, 10, 50, 60000])
+        out.append(f"il{nb} {cap} " + " ".join(",".join(b) or "-" for b in blocks) + " " + (",".join(want) or "-"))
+    # _case3_best_reordering on blocks of which some arrangement of phase 2, 3 or 4 DOES evaluate to (I, W): a non-commuting walk over
+    # the universal set whose value has an identity left part is cut into blocks / dealt out to blocks / dealt out with a repeated block
+    import oracle as O
+    made, tries = 0, 0
+    while made < (300 if th else 90) and tries < 60000:
+        tries += 1
+        N = rng.choice([4, 4, 5]); k = 2
+        U = impl_compiler.handle(f"uset {N} {k}").split(",")
+        ph = rng.choice([2, 3, 3, 4, 4])
+        L = rng.randint(3, 7)
+        x = rng.choice(U)
+        twice = sorted(rng.sample(range(L), 2)) if ph == 4 else []
+        arr, cur = [], None
+        for i in range(L):
+            cands = [u for u in ([x] if i in twice else U) if cur is None or O.anti(O.enc(u), cur)]
+            if not cands:
+                break
+            u = rng.choice(cands); arr.append(u)
+            cur = O.enc(u) if cur is None else O.mul(O.enc(u), cur)
+        if len(arr) < L:
+            continue
+        r = O.dec(cur, N)
+        if set(r[:k]) != {"I"} or set(r[k:]) == {"I"}:
+            continue
+        rv = lambda l: list(reversed(l)) if rng.random() < 0.5 else list(l)
+        if ph == 2:
+            c1, c2 = sorted([rng.randint(0, L), rng.randint(0, L)])
+            bl = [rv(arr[:c1]), rv(arr[c1:c2]), rv(arr[c2:])]
+            rng.shuffle(bl)
+            G1, G2, A = bl
+        else:
+            own = [rng.randrange(3) for _ in range(L)]
+            if ph == 4:
+                own[twice[0]] = own[twice[1]] = 2
+                own = [o if (o != 2 or i in twice) else rng.randrange(2) for i, o in enumerate(own)]
+            G1, G2, A = [rv([u for u, o in zip(arr, own) if o == b]) for b in range(3)]
+            if ph == 4:
+                A = [x]
+        if not G1 or not G2:
+            continue
+        made += 1
+        out.append(f"case3 {N} {k} {','.join(G1)} {','.join(G2)} {','.join(A) or '-'} {r[k:]}")
+        if rng.random() < 0.2:
+            out.append(f"case3 {N} {k} {','.join(G1)} {','.join(G2)} {','.join(A) or '-'} {rs(N - k)}")
+    return list(dict.fromkeys(out))
+
+def guard_lines(rng):
+    """compile_target outside the admissible (N, k): the guards of compile_target and of the constructors"""
+    out = ["compile 3 1 XYZ", "compile 3 3 XYZ", "compile 3 0 XYZ", "compile 3 -1 XYZ", "compile 2 1 XY", "compile 1 1 X",
+           "compile 2 2 XY", "compile 4 7 XYZI"]
+    return out
 
 def compile_lines(rng, tier, corpus=()):
     """exhaustive N<=4 (quick) / N<=5 (thorough), every 2<=k<N; seeded samples above"""
